@@ -168,6 +168,19 @@ def explore_mov(item):
     return rep
 
 
+def zero_cands(a, mode):
+    from hexital.core.candle import Candle
+    if mode == "reading":
+        cands = [Candle(10, 12, 9, 11, 5, timestamp=BASE + timedelta(minutes=i), indicators=({} if v is None else {"A": v})) for i, v in enumerate(a)]
+        name_ = "A"
+    else:
+        cands = [Candle(10, 12, 9, 11, v, timestamp=BASE + timedelta(minutes=i)) for i, v in enumerate(a)]
+        name_ = "volume"
+    for c in cands:
+        c.indicators["B"] = 1
+    return cands, name_
+
+
 def explore_mov_zero(tier, first):
     """Readings that are legitimately 0 (and 0-valued candle attributes such as volume) are values, not missing."""
     from hexital.analysis import movement as M
@@ -181,15 +194,8 @@ def explore_mov_zero(tier, first):
         for mode in ("reading", "volume"):
             if mode == "volume" and any(v is None for v in a):
                 continue
-            if mode == "reading":
-                cands = [Candle(10, 12, 9, 11, 5, timestamp=BASE + timedelta(minutes=i), indicators=({} if v is None else {"A": v})) for i, v in enumerate(a)]
-                name_ = "A"
-            else:
-                cands = [Candle(10, 12, 9, 11, v, timestamp=BASE + timedelta(minutes=i)) for i, v in enumerate(a)]
-                name_ = "volume"
+            cands, name_ = zero_cands(a, mode)
             b = tuple(1 for _ in a)
-            for c in cands:
-                c.indicators["B"] = 1
             for i in range(1, n):
                 for L in (1, 2, 3):
                     for name, ref in singles:
@@ -447,6 +453,19 @@ def replay(case):
         return True
     a = tuple(case["A"])
     i = case["index"]
+    if "mode" in case:  # zero-valued readings / candle attributes
+        cands, name_ = zero_cands(a, case["mode"])
+        b = [1] * len(a)
+        if name in ("above", "below"):
+            return call(getattr(M, name), cands, name_, "B", i)[1] is not {"above": ref_above, "below": ref_below}[name](list(a), b, i)
+        if name in ("crossover", "crossunder"):
+            ref = {"crossover": ref_crossover, "crossunder": ref_crossunder}[name]
+            return call(getattr(M, name), cands, name_, "B", case["length"], i)[1] is not ref(list(a), b, i, case["length"])
+        g = call(getattr(M, name), cands, name_, case["length"], i)
+        if name in ("highestbar", "lowestbar"):
+            pick = max if name == "highestbar" else min
+            return not (g[0] == "ok" and g[1] in (ref_bar(list(a), i, case["length"], 0, pick), ref_bar(list(a), i, case["length"], 1, pick)))
+        return g[0] != "ok" or not eq(g[1], globals()["ref_" + name](list(a), i, case["length"]))
     if "scale" in case:
         a2 = tuple(None if v is None else v * case["scale"] + case["shift"] for v in a)
         return call(getattr(M, name), mk(a), "A", 2, i) != call(getattr(M, name), mk_vals(a2, a), "A", 2, i)
